@@ -108,6 +108,10 @@ def check_structure(label, A, B, F, pred):
                             % (label, a.id, fa.id, fa, sorted(fa.depends_on)), site="A")
     newid = {b.id: fb.id for b, fb in zip(B, FB)}
     for b_, fb in zip(B, FB):
+        dangling = sorted(d for d in b_.depends_on if d not in newid)
+        if dangling:
+            raise Violation("deps-not-preserved", "%s: %s depends on %r, which are no statements of its phase (left "
+                            "behind by the fusion that made this method)" % (label, b_.id, dangling), site="dangling")
         want = set(newid[d] for d in b_.depends_on)
         if set(fb.depends_on) != want or type(b_) is not type(fb):
             raise Violation("deps-not-preserved", "%s: second method's %s (deps %r) became %s with deps %r, expected %r"
